@@ -50,7 +50,7 @@ variant("c02_header_before_tree", ["C02", "C12"], {"C02": ["C02.R4"]},
         let infos = self.tree.flush();
         self.storage.flush_infos(&infos).await?;
 """)])
-variant("c02_truncate_before_header", ["C02", "C12", "C06"], {"C02": ["C02.R5"], "C12": ["C12.R3"]},
+variant("c02_truncate_before_header", ["C02", "C12", "C06"], {"C02": ["C02.R5"], "C12": ["C12.R3"], "C06": ["C06.R9"]},
         "insert_header returns the truncate before the header content write",
         [(OPLOG, """                StoreInfo::new_content(Store::Oplog, oplog_slot as u64, &buffer),
                 StoreInfo::new_truncate(Store::Oplog, truncate_index),
